@@ -1,3 +1,6 @@
+//@ fn RunFailed::from_failed
+//@ params
+_failed: Failed
 //@ fn CaCert::cert
 //@ spec
     ensures *res == self.cert,
@@ -103,7 +106,62 @@
             + object_contrib(old(self).processor.wants(uri), uri, content, &**old(self).cert, old(manifest), old(self).run.validation.strict),
         res is Ok ==> new_items_ok(old(self).processor.log(), final(self).processor.log(), &**old(self).cert, old(manifest)),
         res is Ok ==> ca_tasks_step(old(ca_task)@, final(ca_task)@, *old(self).cert, old(manifest), old(self).run.validation.max_ca_depth),
+//@ fn ValidPointManifest::point_validity
+//@ spec
+    ensures final(processor).log() == old(processor).log(),
+//@ fn PubPoint::validate_stored_manifest
+//@ spec
+    ensures
+        final(self).run == old(self).run, final(self).cert == old(self).cert,
+        final(self).repository_index == old(self).repository_index,
+        final(self).processor == old(self).processor,
+        // C01: the stored manifest is used only if it validates under this CA, its CRL is signed by this
+        // CA's key and does not revoke the manifest's EE certificate
+        res matches Ok(m) ==> mft_ok(&m, &**old(self).cert)
+            && m.manifest_bytes == stored_manifest.manifest && m.crl_bytes == stored_manifest.crl,
+//@ fn PubPoint::accept_point
+//@ spec
+    requires
+        // C01/C03: what is committed was validated under this CA against this one manifest
+        mft_ok(&manifest, &**self.cert),
+        all_ok(self.processor.log(), &**self.cert, &manifest),
+//@ fn PubPoint::reject_point
+//@ spec
+//@ fn PubPoint::process_stored
+//@ spec
+    requires
+        // C03: the stored object set is processed by a processor that holds nothing yet
+        self.processor.log() == Seq::<Item>::empty(),
+    ensures
+        // C41: manifest- and object-level faults reject the point, they are not errors
+        P::PubPoint::infallible() && !stored_read_fatal(store) ==> res is Ok,
+        // C01: every child task returned is for a CA validated under this one
+        res matches Ok(tasks) ==> forall|i: int| 0 <= i < tasks@.len() ==>
+            child_ok(#[trigger] tasks@[i], *self.cert, self.run.validation.max_ca_depth),
+//@ loop 1
+            invariant
+                self_.run == self.run, self_.cert == self.cert,
+                store_.manifest_spec() == store.manifest_spec(),
+                stored_read_fatal(store_) == stored_read_fatal(store),
+                manifest.same_core(&manifest0), mft_ok(&manifest0, &**self.cert),
+                // C01/C03: everything collected so far was validated under this CA against this manifest
+                all_ok(self_.processor.log(), &**self.cert, &manifest0),
+                forall|i: int| 0 <= i < ca_tasks@.len() ==>
+                    task_ok(#[trigger] ca_tasks@[i], *self.cert, &manifest0, self.run.validation.max_ca_depth),
+            decreases store_.pending(),
+//@ beforeloop 1
+        let ghost manifest0 = manifest;
+//@ fn PubPoint::process
+//@ spec
+    requires
+        // C03 (paper step: process_ca_task hands over the fresh processor of process_ta / process_ca)
+        self.processor.log() == Seq::<Item>::empty(),
 //@ global
+impl vstd::std_specs::convert::FromSpecImpl<Failed> for RunFailed {
+    open spec fn obeys_from_spec() -> bool { false }
+    uninterp spec fn from_spec(v: Failed) -> RunFailed;
+}
+
 impl ValidPointManifest {
     // C01 "not revoked by the manifest CRL": names this manifest's CRL and its serial is not on it
     spec fn crl_accepts(&self, cert: &Cert) -> bool {
@@ -145,7 +203,7 @@ spec fn item_ok(it: Item, ca: &CaCert, m: &ValidPointManifest) -> bool {
 
 spec fn new_items_ok(old_log: Seq<Item>, new_log: Seq<Item>, ca: &CaCert, m: &ValidPointManifest) -> bool {
     &&& old_log.len() <= new_log.len()
-    &&& new_log.take(old_log.len() as int) =~= old_log
+    &&& forall|i: int| 0 <= i < old_log.len() ==> new_log[i] == old_log[i]
     &&& forall|i: int| old_log.len() <= i < new_log.len() ==> item_ok(#[trigger] new_log[i], ca, m)
 }
 
@@ -163,7 +221,8 @@ spec fn task_ok<T: ProcessPubPoint>(t: CaTask<T>, ca: Arc<CaCert>, m: &ValidPoin
 spec fn ca_tasks_step<T: ProcessPubPoint>(o: Seq<CaTask<T>>, n: Seq<CaTask<T>>, ca: Arc<CaCert>,
                                           m: &ValidPointManifest, max_depth: usize) -> bool {
     ||| n == o
-    ||| (n.len() == o.len() + 1 && n.take(o.len() as int) =~= o && task_ok(n[o.len() as int], ca, m, max_depth))
+    ||| (n.len() == o.len() + 1 && (forall|i: int| 0 <= i < o.len() ==> n[i] == o[i])
+         && task_ok(n[o.len() as int], ca, m, max_depth))
 }
 
 spec fn ca_cer_ok(cert: Cert, ca: Arc<CaCert>, m: &ValidPointManifest, strict: bool, max_depth: usize) -> bool {
@@ -218,4 +277,25 @@ spec fn object_contrib(wanted: bool, uri: &RsyncUri, content: Bytes, ca: &CaCert
     else if uri.ends_with_spec(".asa") { aspa_contrib(content, ca, m, strict) }
     else if uri.ends_with_spec(".gbr") { gbr_contrib(content, ca, m, strict) }
     else { Seq::empty() }
+}
+
+// C01: "listed on a current, valid manifest of its CA" - the manifest part
+spec fn mft_ok(m: &ValidPointManifest, ca: &CaCert) -> bool {
+    &&& valid_mft(m.ee_cert, m.content, ca.cert)
+    &&& crl_signed_by(m.crl, ca.cert.cert_spec().spki_spec())
+    &&& !m.crl.contains_spec(m.ee_cert.cert_spec().serial_spec())
+}
+
+spec fn all_ok(log: Seq<Item>, ca: &CaCert, m: &ValidPointManifest) -> bool {
+    forall|i: int| 0 <= i < log.len() ==> item_ok(#[trigger] log[i], ca, m)
+}
+
+// what a caller of process_stored / process_collected learns about a returned child task
+spec fn child_ok<T: ProcessPubPoint>(t: CaTask<T>, ca: Arc<CaCert>, max_depth: usize) -> bool {
+    &&& t.cert.parent == Some(ca)
+    &&& valid_ca(t.cert.cert, ca.cert)
+    &&& ca.loop_free(&t.cert.cert.cert_spec())
+    &&& t.cert.chain_len <= max_depth
+    &&& t.cert.tal == ca.tal
+    &&& t.processor.log() == Seq::<Item>::empty()
 }
